@@ -30,7 +30,7 @@ for p in props:
 
 m = {
  "version": 1,
- "setup_cmd": "cd lean && /venv/bin/python ../harness/extract.py && lake build FmtModel fmtdrv " + " ".join(f"FmtModel.Props.{c['property_id']}" for c in checks) + " " + " ".join(f"FmtModel.Findings.{x[:-5]}" for x in sorted(os.listdir(os.path.join(VERIF, "lean", "FmtModel", "Findings"))) if x.endswith(".lean")),
+ "setup_cmd": "/venv/bin/python harness/setup.py",
  "hooks": {"guard": "FMTUTIL_VERIF", "enable": "no source hooks are needed; checks import /repo's working tree directly",
            "baseline_off_cmd": "cd /repo && /venv/bin/python -m pytest -ra -q -p no:cacheprovider --timeout=900 --continue-on-collection-errors",
            "source_commits": [], "add_only": True},
